@@ -58,8 +58,9 @@ func extractEmbeddedElems(
 
 		switch e := evaluated.(type) {
 		case *object.PanMap:
-			for _, pair := range *e.Pairs {
-				pairs = append(pairs, pair)
+			// NOTE: keep order of keys (map order is random)
+			for _, h := range *e.HashKeys {
+				pairs = append(pairs, (*e.Pairs)[h])
 			}
 			for _, nPair := range *e.NonHashablePairs {
 				if !existsNonHashableKey(env, nonHashablePairs, nPair) {
@@ -70,8 +71,12 @@ func extractEmbeddedElems(
 			}
 
 		case *object.PanObj:
-			for _, pair := range *e.Pairs {
-				pairs = append(pairs, pair)
+			// NOTE: keep order of keys (map order is random)
+			for _, h := range *e.Keys {
+				pairs = append(pairs, (*e.Pairs)[h])
+			}
+			for _, h := range *e.PrivateKeys {
+				pairs = append(pairs, (*e.Pairs)[h])
 			}
 
 		default:
